@@ -746,6 +746,84 @@ class WTrig(World):
 
 
 # --------------------------------------------------------------------------------------------
+# W_pos: row positions in a crowded float neighbourhood, after a table rename and a move
+# --------------------------------------------------------------------------------------------
+
+def _up(x, n=1):
+  import struct
+  bits = struct.unpack('<q', struct.pack('<d', x))[0]
+  return struct.unpack('<d', struct.pack('<q', bits + n))[0]
+
+
+POS_CLUSTER = [1.0, _up(1.0), _up(1.0, 2), _up(1.0, 3), 2.0]
+
+POS_SETUP = [
+    [["AddTable", "T0", [{"id": "a", "type": "Int"}, {"id": "p", "type": "PositionNumber"}]]],
+    [["BulkAddRecord", "T0", [None] * 5, {"a": [1, 2, 3, 4, 5], "p": [1.0, 2.0, 3.0, 4.0, 5.0]}]],
+    # the column objects are replaced (RenameTable), then one row moves (not an append): the state
+    # every history starts from already has a rename and a move behind it; row order 1,2,5,3,4
+    [["RenameTable", "T0", "T"]],
+    [["UpdateRecord", "T", 5, {"manualSort": 3.0, "p": 3.0}]],
+    # doc actions store positions as given: the first four rows in adjacent floats, so that every
+    # insert or move into the cluster needs existing rows relabelled (a relabelling spreads the
+    # rows out, so the cluster is set last)
+    [["ApplyDocActions", [["BulkUpdateRecord", "T", [1, 2, 5, 3, 4], {
+        "manualSort": POS_CLUSTER, "p": POS_CLUSTER}]]]],
+]
+
+
+class WPos(World):
+  name = 'W_pos'
+  setup = POS_SETUP
+
+  def __init__(self, reduced=False):
+    self.reduced = reduced
+
+  def alphabet(self, doc):
+    out = []
+    A = out.append
+    tid = 'T' if 'T' in doc.eng.tables else ('T2' if 'T2' in doc.eng.tables else None)
+    if tid is None:
+      return out
+    t = doc.eng.tables[tid]
+    for cid in ('manualSort', 'p', 'q'):
+      if not t.has_column(cid):
+        continue
+      col = t.get_column(cid)
+      order = sorted(t.row_ids, key=col.raw_get)
+      pos = {r: col.raw_get(r) for r in order}
+      head = order[:4]
+      for k, srow in enumerate(head):
+        vals = {cid: pos[srow]}
+        A(("%s: ins before rank%d" % (cid, k), [["AddRecord", tid, None, vals]]))
+      for k, srow in enumerate(head[1:3], 1):
+        A(("%s: ins2 before rank%d" % (cid, k), [["BulkAddRecord", tid, [None, None],
+                                                    {cid: [pos[srow], pos[srow]]}]]))
+      if len(head) >= 3:
+        A(("%s: ins2 spread" % cid, [["BulkAddRecord", tid, [None, None],
+                                      {cid: [pos[head[2]], pos[head[0]]]}]]))
+      pairs = [(i, j) for i in range(len(head)) for j in range(len(head)) if i != j]
+      if self.reduced:
+        pairs = [(0, 2), (0, 3), (3, 0), (2, 1), (1, 3)]
+      for (i, j) in pairs:
+        if i < len(head) and j < len(head):
+          A(("%s: move rank%d before rank%d" % (cid, i, j),
+             [["UpdateRecord", tid, head[i], {cid: pos[head[j]]}]]))
+      if len(head) >= 3:
+        A(("%s: move rank0,rank1 before rank2" % cid,
+           [["BulkUpdateRecord", tid, [head[0], head[1]], {cid: [pos[head[2]], pos[head[2]]]}]]))
+        A(("%s: move rank0 to end" % cid, [["UpdateRecord", tid, head[0], {cid: None}]]))
+    A(("append", [["AddRecord", tid, None, {"a": 9}]]))
+    R = sorted(t.row_ids)
+    if R:
+      A(("rem first", [["RemoveRecord", tid, R[0]]]))
+    A(("rentable", [["RenameTable", tid, 'T2' if tid == 'T' else 'T']]))
+    if t.has_column('p'):
+      A(("rencol p->q", [["RenameColumn", tid, "p", "q"]]))
+    return out
+
+
+# --------------------------------------------------------------------------------------------
 # W_look: lookups with every key/order spec as formula columns
 # --------------------------------------------------------------------------------------------
 
@@ -866,7 +944,7 @@ class WLook(World):
 # --------------------------------------------------------------------------------------------
 
 ALL = {'W_rec': WRec, 'W_schema': WSchema, 'W_sum': WSum, 'W_2way': W2Way, 'W_trig': WTrig,
-       'W_look': WLook, 'W_sumsum': WSumSum}
+       'W_look': WLook, 'W_sumsum': WSumSum, 'W_pos': WPos}
 
 
 def make(names):
